@@ -145,6 +145,13 @@ public:
         return outcome;
     }
 
+    // create the worker pool up front (so that pool growth is not attributed to a case by the allocation oracle)
+    void prewarm(std::size_t n) {
+        std::unique_lock<std::mutex> lk(mu_);
+        ensure_workers(n);
+        trace.reserve(200001);
+    }
+
     // called by the hooks -----------------------------------------------------------------------------
     void yield(int kind, const void* addr) noexcept {
         LThread* self = tl_self;
